@@ -85,13 +85,13 @@ def scenario_wire_from_impl(sc):
 
 # ---------------------------------------------------------------------------
 # base documents
-def sd_to_doc(rng, sd):
+def sd_to_doc(rng, sd, substring_os=False):
     """a document in the documented format that says what SD says (with optional parts and
     alternative spellings chosen at random)"""
     osn = [f"os_{rng.choice('abcdef')}{i}" for i in range(sd["nos"])]
     srvn = [f"srv_{rng.choice('abcdef')}{i}" for i in range(sd["nsrv"])]
     procn = [f"proc_{rng.choice('abcdef')}{i}" for i in range(sd["nproc"])]
-    if rng.random() < 0.15 and sd["nos"] >= 2:
+    if (substring_os or rng.random() < 0.15) and sd["nos"] >= 2:
         # an OS name contained in another one (win / darwin / win10)
         osn = (["win", "darwin", "win10"] if rng.random() < 0.5 else ["os1", "os10", "xos1"])[:sd["nos"]]
     if rng.random() < 0.25:
@@ -639,6 +639,13 @@ def run(ctx, spec):
             if all(e["cost"] > 0 for e in sd_["exploits"]) and all(p["cost"] > 0 for p in sd_["privescs"]):
                 break
         bases.append((f"wide{i}", sd_to_doc(rng, scen.widen_subnet(rng, sd_))))
+    for i in range(2 if tier == "quick" else 8):
+        # always some documents in which one OS name is contained in another
+        while True:
+            sd_ = scen.random_sd(rng, max_subnets=3, max_size=2)
+            if sd_["nos"] >= 2 and all(e["cost"] > 0 for e in sd_["exploits"]) and all(p["cost"] > 0 for p in sd_["privescs"]):
+                break
+        bases.append((f"wide-osnames{i}", sd_to_doc(rng, sd_, substring_os=True)))
     items = [(f"valid@{name}", doc) for name, doc in bases]
     bases = [b for b in bases if not b[0].startswith("wide")]      # the wide documents are compared as they are
     # documented-valid variations (C17's list)
